@@ -505,6 +505,32 @@ def literal_set_guard(S, cond):
                     a = a["expr"]
                 return (expr_text(a), frozenset(lits))
         return None
+    if k == "call" and len(cond.get("args", [])) == 2 and isinstance(cond.get("func"), dict) and cond["func"].get("k") == "path":
+        # a small membership helper that a clean-up introduced: `ident_in(&ident, EMIT_METHODS)` with `fn ident_in(i, table) { table.iter().any(|t| i == t) }`
+        h = _NEW_HELPERS.get(cond["func"]["segs"][-1])
+        if h is not None and h.body is not None and any(x.get("k") == "mcall" and x["method"] in ("any", "contains") for x in walk_block(h.body, (h.name,))):
+            for i_, a in enumerate(cond["args"]):
+                t = a
+                while t.get("k") in ("ref", "paren"):
+                    t = t["expr"]
+                arr = None
+                if t.get("k") == "array":
+                    arr = t
+                elif t.get("k") == "path":
+                    c = S.consts.get(t["segs"][-1]) or S.consts.get("::".join(t["segs"][-2:]))
+                    e = c.get("expr") if c else None
+                    while isinstance(e, dict) and e.get("k") in ("ref", "paren"):
+                        e = e["expr"]
+                    if isinstance(e, dict) and e.get("k") == "array":
+                        arr = e
+                if arr is not None:
+                    lits = [lit_str(x) for x in arr["elems"]]
+                    if lits and all(x is not None for x in lits):
+                        o_ = cond["args"][1 - i_]
+                        while o_.get("k") in ("ref", "paren"):
+                            o_ = o_["expr"]
+                        return (expr_text(o_), frozenset(lits))
+        return None
     if k == "binary" and cond.get("op") == "||":
         l = literal_set_guard(S, cond["l"])
         r = literal_set_guard(S, cond["r"])
